@@ -76,3 +76,8 @@ for dp, dn, fns in os.walk(os.path.join(REPO, "tradingenv")):
                             sigs[f"{modname}:{node.name}.{s_.name}"] = [a.arg for a in s_.args.posonlyargs + s_.args.args + s_.args.kwonlyargs]
 json.dump(sigs, open(os.path.join(V, "sa", "known_signatures.json"), "w"), indent=1, sort_keys=True)
 print(len(sigs), "signatures")
+
+# digest of the reviewed tree (sa/reviewed_tree.sha256): on this very tree a failing checker self-validation fails the thorough run
+sys.path.insert(0, V)
+from sa.cli import tree_digest
+open(os.path.join(V, "sa", "reviewed_tree.sha256"), "w").write(tree_digest() + "\n")
